@@ -414,6 +414,8 @@ type cliRun struct {
 	pollStop   bool
 	pollDone   bool
 	polls      int
+	inQ        map[uint64]bool // operations whose Q call has not returned yet (not "handed over" yet)
+	epoch      int             // bumped around Reset: a Status() snapshot taken across it describes no single session
 }
 
 func (cr *cliRun) newClient() {
@@ -443,10 +445,14 @@ func terminalFor(fib bool, st spb.AFTResult_Status) bool {
 // invariant checks the C13 accounting invariant on one Status() snapshot.
 func (cr *cliRun) invariant(when string, final bool) {
 	e := cr.e
+	ep := cr.epoch
 	st, err := cr.c.Status()
 	if err != nil {
 		e.report("C13", "status-error", "Status() failed", err.Error(), false)
 		return
+	}
+	if cr.epoch != ep || ep%2 == 1 {
+		return // a Reset ran while the snapshot was taken
 	}
 	fib := e.sc.Cfg.FIBAck
 	pending := map[uint64]bool{}
@@ -503,6 +509,8 @@ func (cr *cliRun) invariant(when string, final bool) {
 		switch {
 		case term[id] > 1 && !cr.srv.violated:
 			e.report("C13", "completed-twice", "operation has two terminal results", fmt.Sprintf("%s: op %d", when, id), false)
+		case term[id] == 0 && !pending[id] && cr.inQ[id]:
+			// the call handing it over is still running
 		case term[id] == 0 && !pending[id]:
 			e.report("C13", "operation-lost", "operation is neither pending nor resulted", fmt.Sprintf("%s: op %d (%d operations handed to Q)", when, id, len(cr.order)), false)
 		case term[id] > 0 && pending[id] && final:
@@ -514,7 +522,7 @@ func (cr *cliRun) invariant(when string, final bool) {
 }
 
 func runCli(e *env) {
-	cr := &cliRun{e: e, handed: map[uint64]*spb.AFTOperation{}, nextID: 1, elec: 1}
+	cr := &cliRun{e: e, handed: map[uint64]*spb.AFTOperation{}, inQ: map[uint64]bool{}, nextID: 1, elec: 1}
 	cr.srv = &stubServer{e: e, fib: e.sc.Cfg.FIBAck, maxBatch: 1, terminal: map[uint64]spb.AFTResult_Status{}, ribSent: map[uint64]bool{}, opsSeen: map[uint64]*spb.AFTOperation{}, violIdx: -1, lastTermIdx: -1}
 	cr.newClient()
 	ctx := context.Background()
@@ -597,7 +605,15 @@ func runCli(e *env) {
 				cr.handed[op.Id] = op
 				cr.order = append(cr.order, op.Id)
 			}
-			cr.timed("Q", func() { cr.c.Q(&spb.ModifyRequest{Operation: ops}) })
+			for _, op := range ops {
+				cr.inQ[op.Id] = true
+			}
+			cr.timed("Q", func() {
+				cr.c.Q(&spb.ModifyRequest{Operation: ops})
+				for _, op := range ops {
+					delete(cr.inQ, op.Id)
+				}
+			})
 		case "q-elect":
 			cr.elec = st.Elec[1]
 			cr.timed("Q", func() { cr.c.Q(&spb.ModifyRequest{ElectionId: uint128(*st.Elec)}) })
@@ -614,7 +630,9 @@ func runCli(e *env) {
 						Entry: &spb.AFTOperation_NextHop{NextHop: &aftpb.Afts_NextHopKey{Index: 100 + id, NextHop: &aftpb.Afts_NextHop{}}}}
 					cr.handed[id] = op
 					cr.order = append(cr.order, id)
+					cr.inQ[id] = true
 					cr.c.Q(&spb.ModifyRequest{Operation: []*spb.AFTOperation{op}})
+					delete(cr.inQ, id)
 				}
 			})
 		case "await":
@@ -632,6 +650,7 @@ func runCli(e *env) {
 			})
 			cr.census("Close")
 		case "reset":
+			cr.epoch++
 			cr.timed("Reset", func() { cr.c.Reset() })
 			cr.census("Reset")
 			st2, _ := cr.c.Status()
@@ -644,6 +663,7 @@ func runCli(e *env) {
 			default:
 			}
 			cr.handed, cr.order, cr.faulted, cr.afterReset = map[uint64]*spb.AFTOperation{}, nil, false, true
+			cr.epoch++
 		case "reconnect":
 			cr.srv.violated = false
 			connect()
